@@ -203,6 +203,6 @@ pub fn property() -> Property {
       "share points come from OsRng inside the code under test: each case samples one point set",
       "the STAR randomness-server path is exercised by running blind/eval/verify/unblind/finalize in the harness (the crate's own star2 feature does not compile at this commit)",
     ],
-    subs: vec![prop_sub("roundtrip", 3000, 40000, strat, oracle)],
+    subs: vec![prop_sub("roundtrip", 3000, 150000, strat, oracle)],
   }
 }
